@@ -534,8 +534,16 @@ def EFDD_mpe(
         minmax = np.ravel(minmax, order="F")
 
         # finding the indices of the peaks
-        maxSDOFcorr_idx = [np.argmin(abs(normSDOFcorr - maxx)) for maxx in maxSDOFcorr]
-        minSDOFcorr_idx = [np.argmin(abs(normSDOFcorr - minn)) for minn in minSDOFcorr]
+        # position of every extremum inside its own pair of zero crossings (a search for the
+        # extremum's value over the whole function may land on another cycle of equal height)
+        maxSDOFcorr_idx = [
+            zc1[_i] + np.argmax(normSDOFcorr[zc1[_i] : zc1[_i + 2]])
+            for _i in range(0, len(zc1) - 2, 2)
+        ][: len(maxSDOFcorr)]
+        minSDOFcorr_idx = [
+            zc1[_i] + np.argmin(normSDOFcorr[zc1[_i] : zc1[_i + 2]])
+            for _i in range(0, len(zc1) - 2, 2)
+        ][: len(minSDOFcorr)]
         minmax_idx = np.array((minSDOFcorr_idx, maxSDOFcorr_idx))
         minmax_idx = np.ravel(minmax_idx, order="F")
 
